@@ -54,6 +54,8 @@ CORPUS = [
     {'jsonrpc': '2.0', 'method': 'tw_ctx', 'params': [], 'id': 19},
     {'jsonrpc': '2.0', 'method': 'fmt_strict', 'params': ['127.0.0.1'], 'id': 20},
     {'jsonrpc': '2.0', 'method': 'fmt_lenient', 'params': ['localhost'], 'id': 21},
+    {'jsonrpc': '2.0', 'method': 'ctxlast', 'params': [5, 6], 'id': 22},
+    {'jsonrpc': '2.0', 'method': 'ctxlast', 'params': {'a': 1, 'b': 2}, 'id': 23},
 ]
 VALIDATORS = (None, 'pydantic', 'jsonschema')
 TEXTS = [json.dumps(x) for x in CORPUS] + ['{', '']
@@ -70,13 +72,15 @@ def methods():
     # validator arguments given per method (used with the schema validator): a format is an assertion only where asked for
     ms.append(D.M('fmt_strict', [D.P('a')], D.ECHO, js={'format_checker': True}))
     ms.append(D.M('fmt_lenient', [D.P('a')], D.ECHO, js={'format_checker': False}))
+    # the context parameter is the LAST one (passed by keyword): the parameters before it are looked at first
+    ms.append(D.M('ctxlast', [D.P('a'), D.P('b'), D.P('ctx')], D.ECHO, ctx='ctx'))
     return ms
 
 
 FMT_SCHEMA = {'type': 'object', 'properties': {'a': {'format': 'ipv4'}}}
 
 
-def make_case(texts, mode='history', n=None, threads=None, keying='fixed', validator=None, handlers=None, middlewares=None):
+def make_case(texts, mode='history', n=None, threads=None, keying='fixed', validator=None, handlers=None, middlewares=None, cold=False):
     c = {'suite': NAME, 'cfg': D.cfg(methods=methods(), handlers=handlers, middlewares=middlewares), 'texts': texts, 'loads': [S.load_result(t) for t in texts], 'mode': mode,
          'keying': keying}
     if validator:
@@ -85,6 +89,8 @@ def make_case(texts, mode='history', n=None, threads=None, keying='fixed', valid
         c['n'] = n
     if threads is not None:
         c['threads'] = threads
+    if cold:
+        c['cold'] = True
     return c
 
 
@@ -131,6 +137,13 @@ def generate(tier, rng):
     for threads in ((2, 4, 8, 16) if thorough else (2, 8)):
         for _ in range(4 if thorough else 2):
             yield make_case([rng.choice(TEXTS) for _ in range(400 if thorough else 120)], mode='threads', threads=threads)
+    # ... and a pool whose threads meet a method for the FIRST time together (nothing warmed up by a serial run), with a
+    # validator whose exclusion hook takes its time: the first dispatches of one method overlap inside the validator
+    for threads in ((2, 4, 8) if thorough else (2, 4)):
+        for text in (TEXTS[5], TEXTS[6], TEXTS[10], TEXTS[17], TEXTS[22], TEXTS[0], TEXTS[28], TEXTS[29]):
+            yield make_case([text] * (threads * 2), mode='threads', threads=threads, validator='base_slow', cold=True)
+        yield make_case([rng.choice([TEXTS[5], TEXTS[6], TEXTS[10], TEXTS[22], TEXTS[28], TEXTS[29]]) for _ in range(threads * 4)], mode='threads', threads=threads,
+                        validator='base_slow', cold=True)
 
 
 _SHARED = {}
@@ -139,7 +152,14 @@ _SHARED = {}
 def shared_validator(kind):
     """one validator instance per kind for the whole process, as an application has (its caches live as long)"""
     if kind not in _SHARED:
-        if kind == 'pydantic':
+        if kind == 'base_slow':
+            import time
+
+            def slow_hook(name, annotation, default):
+                time.sleep(0.003)         # lets the other threads of the pool in while this one works on the signature
+                return False
+            _SHARED[kind] = (validators.BaseValidator(exclude_param=slow_hook), {})
+        elif kind == 'pydantic':
             from pjrpc.server.validators import pydantic as vp
             _SHARED[kind] = (vp.PydanticValidator(), {})
         else:
@@ -258,7 +278,8 @@ def run_half(c, is_async):
             return {'skipped': True}
         texts = c['texts']
         S.CURRENT['ctx'] = S.CTX          # one context object for the serial and the threaded run (no per-call marker race)
-        serial = [dispatch_on(d, t, False, S.CTX)['result'] for t in texts]
+        if not c.get('cold'):
+            serial = [dispatch_on(d, t, False, S.CTX)['result'] for t in texts]
 
         def work(t):
             try:
@@ -268,6 +289,8 @@ def run_half(c, is_async):
             return S.observe(r, [])['result']
         with ThreadPoolExecutor(max_workers=c['threads']) as ex:
             threaded = list(ex.map(work, texts))
+        if c.get('cold'):
+            serial = [dispatch_on(d, t, False, S.CTX)['result'] for t in texts]
         out['serial'] = serial
         out['threaded'] = threaded
     out.setdefault('cache_growth', cache_size() - before)
